@@ -44,6 +44,36 @@ fn oracle(out: &mut Out, bytes: &[u8], op: &str) -> String {
     ans
 }
 
+/// decode one fixed, unrelated frame of every format, so that whatever a (hypothetical) stateful decoder
+/// remembers is about none of the frames under test
+fn flush_decoder_state() {
+    for df in [0u8, 4, 5, 11, 16, 17, 18, 20, 21, 24] {
+        let mut f = vec![0x55u8; if df & 0x10 != 0 { 14 } else { 7 }];
+        f[0] = (df << 3) | 5;
+        if df == 17 || df == 18 {
+            set_parity(&mut f, 0);
+        }
+        let _ = decode_json(&f);
+    }
+}
+
+/// determinism across a history (oracle only, no model case): f, g, f, g must each decode as they do
+/// right after unrelated traffic.  Replay op: `hist <f hex> <g hex>`.
+pub fn hist_test(out: &mut Out, f: &[u8], g: &[u8]) {
+    flush_decoder_state();
+    let first = dec_answer(&decode_json(f).0);
+    flush_decoder_state();
+    let fresh_g = dec_answer(&decode_json(g).0);
+    let _ = decode_json(f);
+    let after_f = dec_answer(&decode_json(g).0);
+    let again = dec_answer(&decode_json(f).0);
+    out.stat("history-determinism");
+    if after_f != fresh_g || again != first {
+        out.fail("nondeterministic-across-history", &format!("hist {} {}", hex(f), hex(g)),
+                 "decoding one of these frames between two decodings of the other changes the result");
+    }
+}
+
 pub type Oracle = fn(&mut Out, &[u8], &str) -> String;
 
 pub fn dec(out: &mut Out, bytes: &[u8]) {
@@ -94,6 +124,10 @@ pub fn decb(out: &mut Out, bytes: &[u8]) {
 pub fn one_with(out: &mut Out, line: &str, oracle: Oracle) {
     let p: Vec<&str> = line.split_whitespace().collect();
     match p.as_slice() {
+        ["hist", f, g] => match (unhex(f), unhex(g)) {
+            (Some(f), Some(g)) => hist_test(out, &f, &g),
+            _ => out.notes.push(format!("bad hex: {line}")),
+        },
         ["decb", h] => match unhex(h) {
             Some(b) => decb(out, &b),
             None => out.notes.push(format!("bad hex: {line}")),
@@ -191,6 +225,41 @@ pub fn run_with(out: &mut Out, rng: &mut Rng, thorough: bool, oracle: Oracle) {
             let mut f = frame(rng, df, None);
             f[4..11].copy_from_slice(&mb);
             dec(out, &f);
+        }
+    }
+    // near-valid DF17/18: one bit of a valid frame inverted (must be rejected or decoded as what it now says,
+    // never "repaired" into something else)
+    for _ in 0..(200 * k) {
+        let mut f = frame(rng, 17, None);
+        let bit = rng.below(112) as usize;
+        f[bit / 8] ^= 0x80 >> (bit % 8);
+        dec(out, &f);
+    }
+    // determinism across a history: decode f, then a frame that differs from f in a single byte, then f
+    // again — a decoder that remembers anything between calls (memo keyed on part of the input, cached
+    // key schedule, …) answers the third call differently from the first
+    for df in [0u8, 4, 5, 11, 16, 17, 18, 20, 21] {
+        for _ in 0..((if df >= 20 { 25 } else { 4 }) * k) {
+            let f = if df == 20 || df == 21 {
+                let mut f = frame(rng, df, None);
+                let mbs = crate::gen_commb_b::payloads(rng, false);
+                if !mbs.is_empty() {
+                    // the tail of the list holds plain valid encodings (a register is present)
+                    let mb = &mbs[mbs.len() - 1 - rng.below(150.min(mbs.len() as u64)) as usize];
+                    f[4..11].copy_from_slice(mb);
+                }
+                f
+            } else {
+                frame(rng, df, None)
+            };
+            for pos in 0..f.len() {
+                let mut g = f.clone();
+                g[pos] ^= 1 << rng.below(8);
+                if df == 17 {
+                    set_parity(&mut g, 0);
+                }
+                hist_test(out, &f, &g);
+            }
         }
     }
     // per-field sweeps on ADS-B payloads: a 13-bit window slides over the ME field
